@@ -622,7 +622,7 @@ func (p *Process) handleOutput(pipe io.ReadCloser, output string, handler func(m
 	reader := bufio.NewReader(pipe)
 	for {
 		line, err := reader.ReadString('\n')
-		if err != nil {
+		if err != nil && (err != io.EOF || len(line) == 0) {
 			if err == io.EOF {
 				break
 			}
@@ -643,6 +643,10 @@ func (p *Process) handleOutput(pipe io.ReadCloser, output string, handler func(m
 		}
 		p.checkElevatedProcOutput(line)
 		handler(strings.TrimSuffix(line, "\n"))
+		if err != nil {
+			// io.EOF together with an unterminated last line: it was handed over above
+			break
+		}
 	}
 	close(done)
 }
